@@ -380,16 +380,19 @@ class TOFUDatabase:
         if not isinstance(data["hosts"], dict):
             raise ValueError("Invalid TOML: 'hosts' must be a table")
 
-        # Clear database if not merging
-        if not merge:
-            self.clear()
-
         added_count = 0
         updated_count = 0
         skipped_count = 0
 
+        # Everything below happens in one transaction that is committed at the
+        # very end: if an entry is invalid, the conflict callback fails or the
+        # process dies part-way, the database keeps its previous content.
         with self._connection() as conn:
             cursor = conn.cursor()
+
+            # Clear database if not merging (as part of the same transaction)
+            if not merge:
+                cursor.execute("DELETE FROM known_hosts")
 
             for key, host_data in data["hosts"].items():
                 # Validate required fields
@@ -424,8 +427,13 @@ class TOFUDatabase:
                         f"has invalid fingerprint format: {fingerprint}"
                     )
 
-                # Check if host already exists
-                existing = self.get_host_info(hostname, port)
+                # Check if host already exists (on this connection, so that
+                # rows added or removed by this import are taken into account)
+                cursor.execute(
+                    "SELECT fingerprint FROM known_hosts WHERE hostname = ? AND port = ?",
+                    (hostname, port),
+                )
+                existing = cursor.fetchone()
 
                 if existing is None:
                     # New host - add it
